@@ -707,7 +707,7 @@ Proof.
   pose proof (pop_script_cnt l (st_scripts s)) as Hp.
   destruct (pop_script l (st_scripts s)) as [p scr'].
   destruct Hp as [[-> ->]|Hp].
-  - cbn. unfold cnt. cbn. lia.
+  - cbn. unfold cnt. cbn [st_scripts]. apply Nat.le_refl.
   - pose proof (run_listC f step Hs p (mkState (st_subs s) scr' (st_next s))) as H.
     unfold cnt in *. cbn [st_scripts] in H. specialize (H ltac:(lia)).
     destruct (run_list step _ p) as [s' t|e s' t|]; cbn in *; auto; lia.
@@ -717,7 +717,7 @@ Lemma deliver_allC f step i ev : stepC f step ->
   forall ls s, cnt s <= f -> resC (cnt s) (deliver_all step i ev s ls).
 Proof.
   intros Hs. induction ls as [|l r IH]; intros s Hc; cbn; [lia|].
-  apply bindC; [apply notifyC; assumption|]. intros s1 H1. apply IH. lia.
+  apply bindC; [apply (notifyC f); assumption|]. intros s1 H1. apply IH. lia.
 Qed.
 
 Lemma fire_evC f step s ev : stepC f step -> cnt s <= f -> resC (cnt s) (fire_ev step s ev).
@@ -731,13 +731,13 @@ Qed.
 
 Lemma fire_mkC f step s m : stepC f step -> cnt s <= f -> resC (cnt s) (fire_mk step s m).
 Proof.
-  intros Hs Hc. destruct m as [ev|k]; cbn; [apply fire_evC; assumption|lia].
+  intros Hs Hc. destruct m as [ev|k]; cbn; [apply (fire_evC f); assumption|lia].
 Qed.
 
 Lemma pure_stepC s o : resC (cnt s) (pure_step s o).
 Proof.
-  destruct o as [a l|a l|a l| |a c chk|ts a c chk|e|e|]; try (cbn; lia);
-    destruct a as [et| |], l as [li| |]; cbn; unfold cnt; cbn; lia.
+  destruct o as [a l|a l|a l| |a c chk|ts a c chk|e|e|]; try (cbn; apply Nat.le_refl);
+    destruct a as [et| |], l as [li| |]; cbn; apply Nat.le_refl.
 Qed.
 
 Lemma execC E : forall fuel, stepC fuel (exec E fuel).
@@ -795,11 +795,10 @@ Lemma run_list_mono st st' : le_step st st' ->
   forall ops s, run_list st s ops <> OutOfFuel -> run_list st' s ops = run_list st s ops.
 Proof.
   intros Hl. induction ops as [|o r IH]; intros s H; cbn in *; [reflexivity|].
-  rewrite (bind_mono_l (st s o) (st' s o)); [| |apply Hl].
-  - apply bind_mono; [exact H|]. intros s1. apply IH.
-  - rewrite (bind_mono _ _ (fun s1 => run_list st s1 r)) in H |- *; auto.
-    destruct (st s o) as [s1 t1|e s1 t1|]; cbn in *; auto.
-    rewrite IH; [exact H|]. intros C. rewrite C in H. apply H. reflexivity.
+  assert (Ho : st s o <> OutOfFuel).
+  { intros C. rewrite C in H. apply H. reflexivity. }
+  rewrite (Hl s o Ho).
+  apply bind_mono; [exact H|]. intros s1. apply IH.
 Qed.
 
 Lemma prepend_ne t0 r : prepend t0 r <> OutOfFuel -> r <> OutOfFuel.
